@@ -247,6 +247,8 @@ func main() {
 		}
 		b, _ := json.MarshalIndent(st, "", " ")
 		must(os.WriteFile(filepath.Join(*out, "stats.json"), b, 0o644))
+	case "c07child":
+		c07Child(os.Args[2:])
 	case "c19child":
 		c19Child(os.Args[2:])
 	case "c08child":
